@@ -1,7 +1,7 @@
 """Reference build worker for C20: a separate interpreter (own PYTHONHASHSEED,
 own sc3 mode) that builds graph specs on request and returns the bytes.
 
-stdin : one JSON object per line {'gen': 'c01'|'mc', 'spec': {...}}
+stdin : one JSON object per line {'gen': 'c01'|'mc'|'env', 'spec': {...}}
 stdout: one JSON object per line {'hex': '...'} | {'error': 'Type: msg'}
 argv  : mode ('rt'|'nrt'), sc3 path, port offset
 """
@@ -31,8 +31,12 @@ def main():
     for line in sys.stdin:
         req = json.loads(line)
         try:
-            b = (graph.Builder if req['gen'] == 'c01'
-                 else mcgen.Builder)(req['spec'])
+            if req['gen'] == 'env':
+                from vlib import envdef
+                b = envdef.Builder(req['spec'])
+            else:
+                b = (graph.Builder if req['gen'] == 'c01'
+                     else mcgen.Builder)(req['spec'])
             data = b.build()
             rep = {'hex': data.hex()}
         except Exception as e:
